@@ -9,6 +9,7 @@
    (None = field absent from the request = nil pointer in the optional struct). *)
 From Coq Require Import List ZArith Bool.
 Require Import MTX.Model.C12_ApiEdit MTX.Proofs.C12_ApiEdit MTX.Model.C12_FileReload MTX.Proofs.C12_FileReload.
+Require Import MTX.Model.C12_Reads MTX.Proofs.C12_Reads.
 Import ListNotations.
 Local Open Scope Z_scope.
 
@@ -232,3 +233,56 @@ Example C12_example_files :
       [HApi (Add 101 [(2, 22)]) true; HFile (FLoaded fv true); HApi (Patch 200 [(2, 23)]) true] in
   abs_opt st2 = Some {| vg := [(1, 12)]; vd := [(2, 20)]; vp := [(200, [(2, 23)])] |}.
 Proof. vm_compute. repeat split. Qed.
+
+(* ---- READS are part of the histories (Model/C12_Reads.v) ---------------------------------------------------------------
+   A GET handler (global/get, pathdefaults/get, paths/list, paths/get/name) works on a copy of the snapshot and WRITES
+   into that copy (redactCredentials). [wr_g wr_d wr_c] are those writes, arbitrary functions: whatever a handler that
+   works on Conf.Clone() writes, for every endpoint, the read step is the identity on the running configuration (its
+   memory stays well-formed) and the answer is the running configuration with those writes. *)
+Theorem C12_read_is_identity : forall name_f wr_g wr_d wr_c w e w' r, wf w ->
+  read_world name_f Deep wr_g wr_d wr_c w e = (w', r) ->
+  wf w' /\ abs w' = abs w /\ r = project name_f (written wr_g wr_d wr_c (abs w)) e.
+Proof. exact read_world_deep. Qed.
+Print Assumptions C12_read_is_identity.
+
+(* ... and this needs the deep clone: a handler whose copy shares the path cells changes the running configuration
+   by answering a GET *)
+Theorem C12_read_shared_cells_refuted : forall name_f,
+  exists w e (f : fmap -> fmap), wf w /\
+    abs (fst (read_world name_f ShallowIface (fun m => m) (fun m => m) f w e)) <> abs w.
+Proof. exact read_world_shallow_refuted. Qed.
+Print Assumptions C12_read_shared_cells_refuted.
+
+(* values behind slices / pointers of the global part (the backing array of AuthInternalUsers, the pointees of
+   PathDefaults.PublishPass / ReadPass): redacting a Conf.Clone() in place leaves every credential of the running
+   configuration as it was ... *)
+Theorem C12_read_keeps_credentials : forall red empty s locs, (forall a, In a locs -> (a < length s)%nat) ->
+  creds (fst (read_creds CClone red empty s locs)) locs = creds s locs.
+Proof. exact read_creds_clone. Qed.
+Print Assumptions C12_read_keeps_credentials.
+
+(* ... while redacting a struct copy (`c := *snapshot`: the slice shares its backing array) overwrites them *)
+Theorem C12_read_struct_copy_refuted :
+  exists red empty s locs, (forall a, In a locs -> (a < length s)%nat) /\
+    creds (fst (read_creds CStruct red empty s locs)) locs <> creds s locs.
+Proof. exact read_creds_struct_refuted. Qed.
+Print Assumptions C12_read_struct_copy_refuted.
+
+(* HISTORY REFINEMENT with reads: for every history of API edits, file reloads and GETs of any endpoint, the readable
+   configuration, every answer to an edit and every answer to a GET are those of the specification in which the
+   configuration is a plain value that a read does not touch *)
+Theorem C12_refines_reads : forall name_f wr_g wr_d wr_c valid ops st st' outs, wf_opt st ->
+  rrun name_f Deep wr_g wr_d wr_c valid st ops = (st', outs) ->
+  wf_opt st' /\ (abs_opt st', outs) = rspec_run name_f wr_g wr_d wr_c valid (abs_opt st) ops.
+Proof. exact rrun_refines. Qed.
+Print Assumptions C12_refines_reads.
+
+(* non-vacuity: [edit; GET list; GET get of the new path; GET get of a missing path] *)
+Example C12_example_get_steps :
+  let v := {| vg := [(10, 1)]; vd := [(20, 2); (0, 99)]; vp := [(5, [(21, 3)])] |} in
+  snd (rrun 0 Deep (fun m => m) (fun m => m) (fun m => m) (fun _ => true) (Some (load v))
+         [RH (HApi (Add 6 [(20, 7)]) true); RRead EList; RRead (EGet 6); RRead (EGet 8); RRead EGlobal]) =
+  [ROut (HAnswer OOk);
+   RResp (RItems [(5, [(20, 2); (0, 5); (21, 3)]); (6, [(20, 7); (0, 6)])]);
+   RResp (RFields [(20, 7); (0, 6)]); RResp RNotFound; RResp (RFields [(10, 1)])].
+Proof. vm_compute. reflexivity. Qed.
